@@ -237,10 +237,6 @@ def model_mismatch(abs_obj, snap, real, objs):
 # ---------------------------------------------------------------------------------------------
 # Operations (public API only)
 # ---------------------------------------------------------------------------------------------
-class ModelGuardError(RuntimeError):
-    """The API rejected an operation the model's guard admits: the model is wrong (machinery failure)."""
-
-
 def _pairs(arg):
     return {arg[i]: arg[i + 1] for i in range(0, len(arg), 2)}
 
@@ -339,6 +335,7 @@ class Replayer:
         self._ref_cat = None
         self._abs_all = None
         self.pool = None
+        self.rejected = False
 
     # -- bookkeeping
     def _find(self, klass, hist, summary, abs_all=None, **detail):
@@ -348,6 +345,15 @@ class Replayer:
         born = {a["born"]: a for a in (abs_all or [])[len(self.base_abs):]}
         objects = [born.get(k + 1) for k in range(len(hist))]
         self.findings.append(Finding(klass, summary, dict(detail, history=list(hist), objects=objects)))
+
+    def _rejected(self, hist, op, e):
+        """The API refused an operation whose documented preconditions hold in the model.  On the
+        unchanged tree this never happens (the guards of GraphAlgebra mirror the API); it does when an
+        earlier operation corrupted the receiver."""
+        self.rejected = True
+        self._find(f"model-mismatch:{op['op']}:rejected", hist,
+                   f"{opkey(op)} is admitted by the model (documented preconditions hold) but the API raised "
+                   f"{type(e).__name__}: {str(e)[:200]}", error=type(e).__name__)
 
     def _div(self, what):
         self.divergences[what] = self.divergences.get(what, 0) + 1
@@ -401,7 +407,8 @@ class Replayer:
             try:
                 new = pool.apply(pool.cat, op, recv, k)
             except Exception as e:  # noqa: BLE001
-                raise ModelGuardError(f"API rejected {opkey(op)} admitted by the model: {type(e).__name__}: {e}; history={hist}") from e
+                self._rejected(hist, op, e)
+                return False
             self.stats["new_objects"] += 1
             if new is recv or any(new is o for o in pool.objs):
                 self._find(f"not-a-new-object:{op['op']}", hist, f"{op['op']} returned an existing object")
@@ -493,11 +500,14 @@ class Replayer:
         if not lazy:
             pool.snaps = [self._observe(o) for o in pool.objs]
             self._check_base(pool)
+        self.rejected = False
         for k in range(1, len(hist) + 1):
             if lazy:
                 self._lazy_step(pool, hist[:k], abs_objs, hist[k - 1], objs_abs[k - 1])
             else:
                 self.step(pool, hist[:k], abs_objs, hist[k - 1], objs_abs[k - 1])
+            if self.rejected:
+                return pool       # the object does not exist: the rest of the history cannot be executed
             if objs_abs[k - 1] is not None:
                 abs_objs.append(objs_abs[k - 1])
         if lazy:
@@ -521,35 +531,52 @@ class Replayer:
         if op["op"] == "observe":
             s = observe(recv, run=False)
             self.stats["snapshots"] += 1
-            self._lazy_cmp(pool, hist, op, i, s)
+            self._lazy_cmp(pool, hist, i, s)
         elif op["op"] == "run":
             s = {"run": run_graph(recv)}
             self.stats["snapshots"] += 1
-            self._lazy_cmp(pool, hist, op, i, s)
+            self._lazy_cmp(pool, hist, i, s)
         else:
             try:
                 new = pool.apply(pool.cat, op, recv, len(hist))
             except Exception as e:  # noqa: BLE001
-                raise ModelGuardError(f"API rejected {opkey(op)} admitted by the model: {type(e).__name__}: {e}; history={hist}") from e
+                self._rejected(hist, op, e)
+                return
             self.stats["new_objects"] += 1
             if any(new is o for o in pool.objs):
                 self._find(f"not-a-new-object:{op['op']}", hist, f"{op['op']} returned an existing object")
             pool.objs.append(new)
             pool.snaps.append(None)
 
-    def _lazy_cmp(self, pool, hist, op, i, s):
+    @staticmethod
+    def _blame(hist, i):
+        """Lazy replay sees an object late: name the first derivation applied TO it if there is one
+        (it changed as a receiver), otherwise the last derivation of the history (it was influenced)."""
+        mine = [op for op in hist if op["tgt"] == i + 1 and op["op"] not in OBSERVATIONS]
+        if mine:
+            return "receiver-changed", mine[0]
+        ders = [op for op in hist if op["op"] not in OBSERVATIONS]
+        return "sibling-influenced", (ders[-1] if ders else {"op": "base", "tgt": 0, "arg": []})
+
+    def _lazy_changed(self, hist, i, d, text, **detail):
+        kind, op = self._blame(hist, i)
+        if kind == "receiver-changed":
+            for ob in d:
+                self._find(f"receiver-changed:{op['op']}:{ob.lstrip('@')}", hist, text, object=i + 1, observable=ob,
+                           mode="lazy", **detail)
+        else:
+            self._find(f"sibling-influenced:{op['op']}", hist, text, object=i + 1, observables=d, mode="lazy", **detail)
+
+    def _lazy_cmp(self, pool, hist, i, s):
         prev = pool.snaps[i]
         if prev is None:
             pool.snaps[i] = dict(s)
             return
         d = [k for k in s if k in prev and prev[k] != s[k]]
-        prev.update({k: v for k, v in s.items() if k not in prev})
         if d:
-            last = hist[-1] if op is None else op
-            self._find(f"sibling-influenced:{last['op']}", hist,
-                       f"object #{i + 1} observed differently than before (lazy replay): " +
-                       "; ".join(f"{ob}: {prev.get(ob)!r} -> {s.get(ob)!r}" for ob in d)[:600],
-                       object=i + 1, observables=d, mode="lazy")
+            self._lazy_changed(hist, i, d, f"object #{i + 1} observed differently than before (lazy replay): " +
+                               "; ".join(f"{ob}: {prev.get(ob)!r} -> {s.get(ob)!r}" for ob in d)[:600])
+        prev.update({k: v for k, v in s.items() if k not in prev})
 
     def _lazy_final(self, pool, hist, abs_objs):
         self._abs_all = abs_objs
@@ -558,23 +585,24 @@ class Replayer:
             order.reverse()
         for i in order:
             s = self._observe(pool.objs[i])
-            created_by = hist[abs_objs[i]["born"] - 1] if abs_objs[i]["born"] else {"op": "base", "tgt": 0, "arg": []}
-            self._lazy_cmp(pool, hist, created_by, i, s)
+            self._lazy_cmp(pool, hist, i, s)
+            created_by = hist[abs_objs[i]["born"] - 1] if abs_objs[i]["born"] else self._blame(hist, i)[1]
             self.stats["model_compares"] += 1
             bad, order_only = model_mismatch(self.project(abs_objs[i]), s, pool.objs[i], pool.objs)
             for ob, exp, got in bad:
                 self._find(f"model-mismatch:{created_by['op']}:{ob}", hist,
-                           f"object #{i + 1} created by {opkey(created_by)}: {ob} is {got!r}, the model says {exp!r} (lazy replay)",
+                           f"object #{i + 1}" + (f" created by {opkey(created_by)}" if abs_objs[i]["born"] else " (base)") +
+                           f": {ob} is {got!r}, the model says {exp!r} (lazy replay)",
                            object=i + 1, observable=ob, expected=exp, observed=got, mode="lazy")
-            if self.refs and i >= len(self.base_abs):
+            if self.refs:
                 self.stats["ref_compares"] += 1
                 ref = self.reference(hist, abs_objs, i + 1)
                 d = diff(ref, s, ident=False)
                 if d:
-                    self._find(f"sibling-influenced:{created_by['op']}", hist,
-                               f"object #{i + 1} differs from the object built from its own derivation chain alone (lazy replay): " +
-                               "; ".join(f"{ob}: {ref.get(ob)!r} vs {s.get(ob)!r}" for ob in d)[:600],
-                               object=i + 1, observables=d, reference="chain-only", mode="lazy")
+                    self._lazy_changed(hist, i, d, f"object #{i + 1} differs from the object built from its own derivation "
+                                       "chain alone (lazy replay): " +
+                                       "; ".join(f"{ob}: {ref.get(ob)!r} vs {s.get(ob)!r}" for ob in d)[:600],
+                                       reference="chain-only")
 
     # -- depth-first walk of a trie of histories with shared prefix objects
     def walk(self, trie_root, prefix_nodes, limit_findings=40):
@@ -591,8 +619,11 @@ class Replayer:
             for nd in path:
                 h.append(nd["op"])
                 n0 = len(self.findings)
+                self.rejected = False
                 self.step(pool, list(h), ab, nd["op"], nd["obj"])
                 del self.findings[n0:]       # already reported when first seen
+                if self.rejected:
+                    raise RuntimeError(f"cannot rebuild the prefix {h}: the API now rejects an operation it accepted before")
                 if nd["obj"] is not None:
                     ab.append(nd["obj"])
             return pool
@@ -603,7 +634,10 @@ class Replayer:
         self._check_base(pool)
         for nd in prefix_nodes:
             hist.append(nd["op"])
+            self.rejected = False
             self.step(pool, list(hist), abs_objs, nd["op"], nd["obj"])
+            if self.rejected:
+                return _size(prefix_nodes[-1])
             if nd["obj"] is not None:
                 abs_objs.append(nd["obj"])
             path.append(nd)
@@ -619,8 +653,16 @@ class Replayer:
                 hist.append(child["op"])
                 path.append(child)
                 n_objs, n_abs = len(pool.objs), len(abs_objs)
+                self.rejected = False
                 clean = self.step(pool, list(hist), abs_objs, child["op"], child["obj"])
                 visited += 1
+                if self.rejected:          # the object does not exist: its subtree cannot be executed
+                    visited += _size(child) - 1
+                    self.stats["skipped_after_rejection"] = self.stats.get("skipped_after_rejection", 0) + _size(child) - 1
+                    hist.pop()
+                    path.pop()
+                    pool = rebuild()
+                    continue
                 if child["obj"] is not None:
                     abs_objs.append(child["obj"])
                 if not clean:
@@ -663,6 +705,10 @@ def build_trie(hist_lines):
                 count += 1
             node = nxt
     return root, count
+
+
+def _size(node):
+    return 1 + sum(_size(c) for c in node["ch"])
 
 
 def history_of(path_nodes):
